@@ -32,6 +32,7 @@ META = dict(
 META["text"] += " (R7 = C06.R4) the consumer of the threshold keeps, position by position, exactly the cards whose sample number is within the contest's threshold."
 META["text"] += ' R1 finds the walk sequence by role and requires it to be all indices in ascending sample-number order (a partial sort is refuted); the reported sample may be the sorted set of selected cards; R6 also: the drawn sample is enumerated as given (order-preserving copies accepted).'
 META["text"] += ' R4 also: consistent_sampling and assign_sample_nums keep no state between calls (no cached order). R6 also: both samples are sorted on every call (no early exit, no conditional sort).'
+META["text"] += ' (R8, N, frame condition on arguments) the draw writes sample numbers, flags and thresholds and nothing else: every function in scope changes the objects it is handed only in the ways confirmed for it (aud.ARG_EFFECTS); references are followed through aliases, elements, attributes, loop variables, .get/.items/.values and np.asarray, resolved by the bindings that reach the use.'
 
 
 def card_expr(fn):
@@ -108,6 +109,9 @@ def tx_with_progress(f, extra=None):
 
 
 def run(chk):
+    from .. import aud as _aud8
+    _aud8.argument_effects(chk, 'C07.R8', 'shangrla/core/Audit.py', 'the draw writes sample numbers, flags and thresholds and nothing else', only=lambda q: q.startswith('CVR.'))
+    _aud8.argument_effects(chk, 'C07.R8', 'shangrla/core/Audit.py', 'the draw writes sample numbers, flags and thresholds and nothing else', only=lambda q: q == 'Assertion.mvrs_to_data')
     chk.explain(
         "R1 walk order (ascending sort by sample_num only, start at 0, +1 on every path); R2 take-iff guard as a decision table; R3 "
         "count and threshold updated under one guard for the card just visited, for every contest; R4 read/write sets of the "
